@@ -96,3 +96,14 @@ where
         self.inner.verif_fp(now, out)
     }
 }
+
+// Verification hook: an exhaustive walk copies its state at every branch.
+#[cfg(feature = "verif")]
+impl<I: Copy> Clone for TracingController<I> {
+    fn clone(&self) -> Self {
+        *self
+    }
+}
+
+#[cfg(feature = "verif")]
+impl<I: Copy> Copy for TracingController<I> {}
